@@ -245,4 +245,15 @@ PROPS = {
         essential={"estimate_bounds_peak": {"convolution:yes": 0.4, "aux>=10": 0.2, "coeffs:>=1e4": 0.006}},
         assumptions=["sizeof(splinetable) is part of the estimate but not of the measured requests"],
     ),
+    "C20": dict(
+        level="fault_enumeration",
+        level_text="Stateful model-based testing with fault enumeration: generated histories of up to 25 operations over 1..3 splinetable<CheckedAlloc> objects (construction from good / missing / corrupt paths, reads from memory and disk incl. into populated objects, valid and invalid fits, key writes/removals, convolution, valid and invalid permutations, move construction and assignment incl. self, comparison, writes to memory / disk / unwritable paths / from empty tables, evaluation, destruction) run against an abstract model of every object. After every step every getter of every object must match its model, a failed operation must have left its object unchanged or empty, moved-from objects must be empty, and the allocator ledger must show no foreign or double free; at the end every block must have been returned exactly once. Each history is then re-run once per allocation position k (all positions up to 300) with std::bad_alloc injected at allocation k, under the same invariants. Fork-isolated under ASan/UBSan.",
+        level_note="Operations are only generated inside their documented preconditions or the must-reject catalogues of C07/C13/C15/C16 (e.g. no convolve on an empty table). Allocation failures are injected only through the allocator template parameter (operator new inside the library is not failed).",
+        technique="stateful model-based property testing (rapidcheck, fork-isolated) with exhaustive single allocation-failure injection per history",
+        units=[U("c20_lifecycle", "c20_lifecycle.cpp", quick=700, thorough=100000, names=["lifecycle"])],
+        rule="a case = one history; evaluations counts histories, 'injection_positions' the re-runs with an injected failure. Non-trivial: a run in which the injected allocation failure "
+             "was actually reached (distinct = hash(history, k)); class history:failure_then_further_use counts histories where a failed operation is followed by further use.",
+        essential={"lifecycle": {"injections_reached": 20.0, "history:failure_then_further_use": 0.3, "op:move_assign": 0.3, "op:convolve": 0.3, "op:fit_valid": 0.3, "op:read_mem_bad": 0.3}},
+        assumptions=["the abstract model learns coefficient values after fit/convolve by snapshot (they are checked by C09/C14), and predicts everything else"],
+    ),
 }
